@@ -48,10 +48,16 @@ def main(argv):
             extra = argv[i + 1]; i += 2
         elif argv[i] == "--name":
             name = argv[i + 1]; i += 2
+        elif argv[i] == "--dir":
+            for pf in sorted(glob.glob(os.path.join(argv[i + 1], "*.diff"))):
+                items.append((os.path.basename(pf), pf, None))
+            i += 2
         else:
             ids.append(argv[i]); i += 1
     if extra:
         items.append((name or os.path.basename(extra), extra, None))
+    elif items:
+        pass
     else:
         for d in sorted(glob.glob(os.path.join(V, "seeded", "*"))):
             if ids and os.path.basename(d) not in ids:
